@@ -21,7 +21,7 @@ from hsim.worlds.http import FlowRecord, HttpWorld
 
 PROPERTY = "C15"
 CHUNK = {"quick": 10, "thorough": 24}
-PROBES = ["take_resume_later", "take_never_resumed", "raise_in_request_hook", "raise_in_response_hook",
+PROBES = ["two_sessions_in_one_simulator", "take_resume_later", "take_never_resumed", "raise_in_request_hook", "raise_in_response_hook",
           "raise_in_subscriber", "raise_in_logger", "malformed_seed_request", "malformed_eq_request",
           "malformed_seed_response", "malformed_eq_response", "malformed_uploader_response", "malformed_login_response",
           "bad_bridge_owner_key", "response_injected_at_request", "url_rewritten", "flows_of_two_sessions_interleaved",
@@ -60,6 +60,7 @@ def gen_plan(rng: random.Random, tier: str) -> dict:
         "queue_latency": rng.choice([0.0, 0.002, 0.01, 0.05]),
         "latency_seed": rng.randrange(1 << 30),
         "n_addons": rng.randint(1, 2),
+        "shared_sims": rng.random() < 0.4,
         "logger": rng.choice(["none", "ok", "raises_sometimes"]),
         "tail": 0.6,
     }
@@ -116,8 +117,11 @@ def simplify_plan(plan):
                "steps": [{**s, "req_beh": s["req_beh"][:1], "resp_beh": s["resp_beh"][:1]} for s in plan["steps"]]}
 
 
-def region_specs(sidx: int, n: int) -> List[dict]:
-    return [{"addr": (f"10.2.{sidx}.{r + 2}", 13000 + r), "handle": ((1000 + 10 * sidx + r) << 32) | 256000,
+def region_specs(sidx: int, n: int, shared_sims: bool = False) -> List[dict]:
+    """`shared_sims`: every session's r-th region is the same simulator (same circuit address and handle) -
+    two avatars in the same places; seed / cap URLs stay per session."""
+    a = 0 if shared_sims else sidx
+    return [{"addr": (f"10.2.{a}.{r + 2}", 13000 + r), "handle": ((1000 + 10 * a + r) << 32) | 256000,
              "seed": f"https://sim{sidx}-{r}.example.invalid:12043/cap/seed-{sidx}-{r}"} for r in range(n)]
 
 
@@ -321,7 +325,7 @@ def run_plan(plan: dict) -> RunResult:
         world = HttpWorld(env, cfg, addons=addons, logger=None if cfg["logger"] == "none" else RecordingLogger())
         sessions = []
         for s in range(cfg["n_sessions"]):
-            specs = region_specs(s, cfg["n_regions"][s])
+            specs = region_specs(s, cfg["n_regions"][s], cfg.get("shared_sims", False))
             sess = world.login(s, specs)
             sessions.append(sess)
             for r, region in enumerate(sess.regions):
@@ -556,6 +560,8 @@ def run_plan(plan: dict) -> RunResult:
                             pass
             if not stopped and len({r.spec["st"]["s"] for r in world.flows}) > 1:
                 res.probe("flows_of_two_sessions_interleaved")
+                if cfg.get("shared_sims"):
+                    res.probe("two_sessions_in_one_simulator")
             if not stopped and len(world.sm.sessions) > cfg["n_sessions"]:
                 res.probe("login_created_session")
         if not stopped:
